@@ -86,7 +86,12 @@ func main() {
 				if r := recover(); r != nil {
 					ae, ok := r.(engine.AnchorError)
 					if !ok {
-						panic(r)
+						// a rule met a code shape it cannot process: the property is
+						// undecided on this tree, which fails the check
+						fmt.Fprintf(os.Stderr, "abcheck: internal error in the rules of %s: %v\n%s\n", id, r, debug.Stack())
+						fmt.Printf("UNDECIDED: analyser panic in the rules of %s: %v\n", id, r)
+						rep.Unknown(id+".internal", "-", fmt.Sprintf("analyser panic: %v", r), "-", "the rules of this property could not process this tree (stack on stderr); the property cannot be shown to hold")
+						return
 					}
 					fmt.Printf("UNDECIDED: %s\n", ae.Msg)
 					rep.Unknown(id+".anchor", "-", ae.Msg, "-", "a construct the rules of this property are anchored in is missing from this tree; the remaining obligations were not evaluated and the property cannot be shown to hold")
